@@ -150,4 +150,23 @@ theorem grown_rewrite_not_atomic :
   · simp [read]
   · simp [read, readBackup]
 
+def v2 (a b : Nat) : Fin 2 → Nat := fun i => if i.val = 0 then a else b
+
+/-- …and worse than an error: while the primary array is in flight the STALE primary header (of the table A
+    that was on the disk before the interrupted write) can become valid again — when the sectors of the new
+    array that have reached the disk equal A's — and the disk reads, from the primary, as table A: neither the
+    old table (B, from the backup) nor the new one -/
+theorem degraded_other_table_resurrects_stale_primary :
+    ∃ (R : Reader Nat Nat 2) (old new d : Disk Nat 2) (pa : Nat),
+      OldDegraded R old ∧ NewOk R new ∧ Crash false old new d ∧ read R d = .ok pa false ∧
+      pa ≠ R.parts old.ba ∧ pa ≠ R.parts new.pa := by
+  refine ⟨⟨fun s => if s = 0 then none else some s, fun s => if s = 0 then none else some s,
+      fun a => a 0 * 10 + a 1, fun a => a 0 * 10 + a 1⟩,
+    ⟨0, 11, v2 1 2, v2 2 2, 22⟩, ⟨0, 31, v2 3 1, v2 3 1, 31⟩,
+    ⟨0, 11, mix (fun i => decide (i.val = 1)) (v2 3 1) (v2 1 2), v2 3 1, 31⟩, 11,
+    ⟨by simp [v2], Or.inr ⟨11, by simp, by simp [v2]⟩⟩, ⟨by simp [v2], by simp [v2], rfl⟩, ?_, ?_, by simp [v2], by simp [v2]⟩
+  · exact Crash.primaryArray (pmFirst := false) (old := (⟨0, 11, v2 1 2, v2 2 2, 22⟩ : Disk Nat 2))
+      (new := ⟨0, 31, v2 3 1, v2 3 1, 31⟩) (fun i => decide (i.val = 1))
+  · simp [read, mix, v2]
+
 end Diskfs.GptCrash
